@@ -1,13 +1,16 @@
 import VlsModel.Model.Sweep
 import VlsModel.Drv.Common
 import VlsModel.Drv.Onchain
+import VlsModel.Drv.Wallet
 /-
 Line-protocol driver for the sweep / second-level HTLC signing requests (property C09).  Stateless.
 
   delayed <destFilter> <ver> <locktime> <nInputs> <seq0> <outs> <input> <commitOk> <height> <cpDelay>
   cphtlc  <destFilter> <ver> <locktime> <nInputs> <seq0> <outs> <input> <script r<cltv>|o|x> <anchors> <height>
   justice <destFilter> <ver> <locktime> <nInputs> <seq0> <outs> <input> <height>
-      outs: comma list of two letters  cs ∈ t|f|e, allow ∈ y|n|p   (or -)
+      outs: comma list of two letters  cs ∈ t|f|e, allow ∈ y|n|p   (or -), the facts given directly;  or
+            @<style n|l|d>;<wallet path>;<allow items a,b|->;<script descriptors d,d|->   (syntax: Drv/Wallet.lean): the facts
+            are computed by the wallet model (`Sweep.outOfScript`)
   htlc <minFeerate> <maxFeerate> <fltLocktime> <fltFeeRange> <ct l|s|a|z> <toSelfDelay> <ver> <locktime>
        <ins txid:vout:seq,..|-> <outs value:script,..|-> <redeem o|r|x> <amountSat>
       script: r<revKey>/<delay>/<delayedKey> | o<id>
@@ -33,8 +36,20 @@ def sweepOut? (s : String) : Option SweepOut :=
     | _, _ => none
   | _ => none
 
+/-- `@style;path;allow;descs`: the outputs as script descriptors, classified by the wallet model -/
+def sweepOutsOfDescs? (s : String) : Option (List SweepOut) :=
+  match (String.ofList (s.toList.drop 1)).splitOn ";" with
+  | [st, p, al, ds] =>
+    match Wallet.style? st, Wallet.path? p, mapM? Wallet.allowable? (splitList al ","), mapM? Wallet.script? (splitList ds ",") with
+    | some st, some p, some al, some ds => some (ds.map (outOfScript st al p))
+    | _, _, _, _ => none
+  | _ => none
+
+def sweepOuts? (outs : String) : Option (List SweepOut) :=
+  if outs.toList.head? == some '@' then sweepOutsOfDescs? outs else mapM? sweepOut? (splitList outs ",")
+
 def sweepTx? (ver lt nin seq0 outs : String) : Option SweepTx :=
-  match nat? ver, nat? lt, nat? nin, nat? seq0, mapM? sweepOut? (splitList outs ",") with
+  match nat? ver, nat? lt, nat? nin, nat? seq0, sweepOuts? outs with
   | some ver, some lt, some nin, some seq0, some outs => some ⟨ver, lt, nin, seq0, outs⟩
   | _, _, _, _, _ => none
 
